@@ -255,6 +255,32 @@ class Check(object):
             json.dump(ev, f, indent=1, sort_keys=True, default=str)
 
 
+class RuleView(object):
+    """lets the obligations of another property's rule group be discharged under one rule of this check (the shared code is
+    evaluated again, on this run's tree; only the rule id and the keys are this check's own)"""
+    def __init__(self, chk, rule):
+        self._chk, self._rule = chk, rule
+
+    def ob(self, rule, desc, ok, site=None, found=None, expect=None, key=None, path=None):
+        return self._chk.ob(self._rule, desc, ok, site=site, found=found, expect=expect,
+                            key="%s|%s" % (self._rule, key if key is not None else "%s|%s" % (rule, desc)), path=path)
+
+    def rule(self, *a, **k):
+        pass
+
+    def attempt(self, label, fn):
+        return self._chk.attempt(label, fn)
+
+    def assume(self, text):
+        self._chk.assume(text)
+
+    def error(self, msg):
+        self._chk.error(msg)
+
+    def __getattr__(self, name):
+        return getattr(self._chk, name)
+
+
 def _emit(lines):
     """print; a reader that went away (closed pipe) must not turn into a different exit code"""
     try:
